@@ -174,6 +174,44 @@ def gen_channel_data(rng, kind, allow_empty=True):
     return d
 
 
+def retype_variant(rng, pv):
+    """The same numeric value expressed through another accepted Python / numpy / wrapper type (another TDMS
+    type, often with identical bytes) - what a later write_segment may legitimately assign to the same property."""
+    k = pv[0]
+    v = None
+    if k == 'int':
+        v = pv[1]
+    elif k == 'bool':
+        v = int(pv[1])
+    elif k == 'np' and DT_TO_T[pv[1]] in fmt.INT_RANGE:
+        v = int(np.frombuffer(bytes.fromhex(pv[2]), dtype=pv[1])[0])
+    elif k == 'wrap' and WRAP_TYPES[pv[1]] in fmt.INT_RANGE:
+        v = pv[2]
+    elif k == 'wrap' and pv[1] == 'Boolean':
+        v = int(pv[2])
+    if v is None:
+        if k == 'float':
+            x = struct.unpack('<d', bytes.fromhex(pv[1]))[0]
+            return rng.choice([['np', '<f8', pv[1]], ['wrap', 'DoubleFloat', x]]) if x == x else None
+        return None
+    cands = []
+    if -2**63 <= v < 2**64:
+        cands.append(['int', v])
+    if v in (0, 1):
+        cands += [['bool', bool(v)], ['wrap', 'Boolean', bool(v)]]
+    for dt in ('<i1', '<i2', '<i4', '<i8', '<u1', '<u2', '<u4', '<u8'):
+        lo, hi = fmt.INT_RANGE[DT_TO_T[dt]]
+        if lo <= v <= hi:
+            cands.append(['np', dt, np.array([v], dtype=dt).tobytes().hex()])
+    for name, t in WRAP_TYPES.items():
+        if t in fmt.INT_RANGE and fmt.INT_RANGE[t][0] <= v <= fmt.INT_RANGE[t][1]:
+            cands.append(['wrap', name, v])
+    if abs(v) < 2**24:
+        cands.append(['np', '<f4', struct.pack('<f', float(v)).hex()])
+    cands = [c for c in cands if expected_prop(c)[0] != expected_prop(pv)[0]]
+    return rng.choice(cands) if cands else None
+
+
 def gen_program(rng, max_calls=8):
     nasty = rng.random() < 0.2
     groups = []
@@ -189,6 +227,7 @@ def gen_program(rng, max_calls=8):
             chans.append({'group': g, 'channel': c, 'kind': gen_channel_kind(rng)})
     ncalls = rng.randint(1, max_calls)
     calls = []
+    written = {}
     for _ in range(ncalls):
         objs = []
         if rng.random() < 0.3:
@@ -200,6 +239,17 @@ def gen_program(rng, max_calls=8):
             if rng.random() < 0.6:
                 objs.append({'kind': 'channel', 'group': ch['group'], 'channel': ch['channel'],
                              'data': gen_channel_data(rng, ch['kind']), 'props': gen_props(rng, light=True)})
+        # a property assigned earlier is assigned again with the same value through another type
+        for o in objs:
+            key = (o['kind'], o.get('group'), o.get('channel'))
+            prev = written.get(key)
+            if prev and rng.random() < 0.3:
+                name, pv = rng.choice(prev)
+                nv = retype_variant(rng, pv)
+                if nv is not None:
+                    o['props'] = [x for x in (o.get('props') or []) if x[0] != name] + [[name, nv]]
+            for x in (o.get('props') or []):
+                written.setdefault(key, []).append(x)
         if rng.random() < 0.3:
             rng.shuffle(objs)
         if rng.random() < 0.02 and objs:
